@@ -4,6 +4,7 @@
    OCaml driver contains no logic and the same cases can be re-evaluated with
    vm_compute in the kernel. *)
 From PSA Require Import model.Bytes model.Checksum model.Layer model.Dhcp model.Clients model.Ipdb model.IpdbCheck spec.SpecCodec spec.SpecTable spec.SpecIpdb model.Server spec.Monitors.
+From PSA Require Import gen.GoFacts model.Sanitize model.Resolv spec.SpecResolv.
 Open Scope N_scope.
 
 Definition arg (args : list (list N)) (i : nat) : list N := nth i args [].
@@ -197,9 +198,34 @@ Definition dispatch_server (tag : N) (a : LL) : LL :=
     end
   end.
 
+(* ---- C17: hook environment and resolv.conf ---- *)
+Definition enc_file (o : option bytes) : LL := match o with None => [[0]] | Some f => [[1]; f] end.
+(* raw interface configuration: router, ip, mask, domain, [mtu sign; mtu abs; lease sign; lease abs], dns... *)
+Definition dec_ifconf_v4 (a : LL) : ifconf :=
+  ifconfig_v4 (arg a 0) (arg a 1) (arg a 2) (arg a 3) (skipn 5 a) (zt (argn a 4 0) (argn a 4 1)) (zt (argn a 4 2) (argn a 4 3)).
+Definition dispatch_c17 (tag : N) (a : LL) : LL :=
+  match tag with
+  | 1701 => [env_entry (arg a 0) (arg a 1)]
+  | 1702 => dump_script_conf {| ic_router := arg a 0; ic_ip := arg a 1; ic_netmask := arg a 2; ic_domain := arg a 3;
+                                ic_mtu := arg a 4; ic_lease := arg a 5; ic_dns := skipn 6 a |}
+  | 1703 => dump_script_conf (dec_ifconf_v4 a)
+  | 1704 => env_entry gf_env_interface_key (arg a 0) :: dump_script_conf (dec_ifconf_v4 (skipn 1 a))
+  | 1705 => enc_file (syshook (skipn 1 a))
+  | 1707 => [env_entry gf_env_interface_key (arg a 0)]
+  | 1706 => enc_file (syshook (dump_script_conf (dec_ifconf_v4 a)))
+  (* monitors: the specification evaluated on what the implementation produced *)
+  | 1710 => [[b2n (env_var_ok (arg a 0) (arg a 1))]]
+  | 1711 => [[b2n (script_env_ok a)]]
+  | 1712 => [[b2n (forallb psa_var_ok a)]]
+  | 1720 => [[b2n (resolv_ok (arg a 0))]]
+  | 1721 => [[b2n (match spec_nameservers (os_environ (skipn 1 a)) with [] => false | _ => true end)]]
+  | _ => [[99]]
+  end.
+
 Definition dispatch (tag : N) (a : list (list N)) : list (list N) :=
   if (1300 <=? tag) && (tag <? 1400) then dispatch_c13 tag a
   else if (1200 <=? tag) && (tag <? 1300) then dispatch_c12 tag a
   else if (1100 <=? tag) && (tag <? 1200) then dispatch_c11 tag a
   else if (100 <=? tag) && (tag <? 1000) then dispatch_server tag a
+  else if (1700 <=? tag) && (tag <? 1800) then dispatch_c17 tag a
   else [[99]].
